@@ -59,21 +59,21 @@ impl<'a> PrettyPrinter<'a> {
         let table: Vec<Row> = {
             let mut table = Vec::new();
             let mut row = Row {
-                cells: Vec::with_capacity(columns),
+                cells: Vec::new(),
             };
             for arg in pos_args {
                 row.cells.push(arg);
                 if row.cells.len() == columns {
                     table.push(row);
                     row = Row {
-                        cells: Vec::with_capacity(columns),
+                        cells: Vec::new(),
                     };
                 }
                 if let Some(func_call) = arg.to_untyped().cast::<FuncCall>() {
                     if HEADER_FOOTER.contains(&func_name(func_call).as_str()) {
                         table.push(row);
                         row = Row {
-                            cells: Vec::with_capacity(columns),
+                            cells: Vec::new(),
                         };
                     }
                 }
